@@ -11,6 +11,7 @@ package main
 import (
 	"fmt"
 	"reflect"
+	"strconv"
 	"sync"
 	"sync/atomic"
 
@@ -41,6 +42,9 @@ type part struct {
 	err  error
 	pan  interface{}
 	nilS bool // the returned slice was nil
+	// released: the harness is about to edit the object this value may alias (caller-side mutation);
+	// the value was verified at that moment and is not compared any more afterwards
+	released bool
 }
 
 // opResult is the raw record of one executed operation.
@@ -57,6 +61,10 @@ type opResult struct {
 	outDump  string // semantic dump of the produced packet(s) at return (unmasked)
 	outDumpM string // masked
 	siteHash uint64 // hash of the yield sites this operation passed
+	// early O5 verdict, taken when the values were released
+	changedEarly bool
+	earlyExp     string
+	earlyAct     string
 }
 
 type prov struct {
@@ -996,6 +1004,95 @@ func (w *world) label(op *Op, in *slotVal) int32 {
 	return int32(int(op.K)*(numKinds+1) + k)
 }
 
+// releaseResults is called just before the harness edits the object in `slot` on behalf of its owner
+// (overwrite / tweak).  Results of earlier operations on that object may legitimately alias it - through a
+// slice (REMB.DestinationSSRC, RawPacket.Marshal) or, after a zero-copy change, through a view of one of
+// its scalar fields - so they are checked NOW (any change so far is the library's doing) and then released:
+// what happens to them afterwards is the caller's doing.
+func (w *world) releaseResults(t int, upto int, slot int) {
+	prog := w.spec.Tasks[t]
+	for j := 0; j < upto && j < len(prog); j++ {
+		if prog[j].A != slot {
+			continue
+		}
+		r := &w.res[t][j]
+		if !r.done || r.skipped {
+			continue
+		}
+		if b := prog[j].B; b >= 0 && b < len(w.slots) {
+			// the buffer this operation produced sits in a slot of its own and is checked at the end of the run too
+			if sv := &w.slots[b]; sv.def && sv.isB && sv.b != nil && sv.bc != nil {
+				if !bytesEqualCap(sv.b, sv.bc) && !r.changedEarly {
+					r.changedEarly, r.earlyExp, r.earlyAct = true, hexString(sv.bc[:cap(sv.bc)]), hexString(sv.b[:cap(sv.b)])
+				}
+				sv.bc = copyBytesPhys(sv.b) // new baseline: from here on the caller may be the one who changes it
+			}
+		}
+		for pi := range r.parts {
+			p := &r.parts[pi]
+			if p.released {
+				continue
+			}
+			switch p.kind {
+			case ptBytes:
+				if p.b != nil && !bytesEqualCap(p.b, p.bc) && !r.changedEarly {
+					r.changedEarly, r.earlyExp, r.earlyAct = true, hexString(p.bc[:cap(p.bc)]), hexString(p.b[:cap(p.b)])
+				}
+				p.released = true
+			case ptU32:
+				if p.u != nil && !u32Equal(p.u, p.uc) && !r.changedEarly {
+					r.changedEarly, r.earlyExp, r.earlyAct = true, u32String(p.uc), u32String(p.u)
+				}
+				p.released = true
+			}
+		}
+	}
+}
+
+func bytesEqualCap(a, b []byte) bool {
+	if cap(a) != cap(b) {
+		return false
+	}
+	x, y := a[:cap(a)], b[:cap(b)]
+	for i := range x {
+		if x[i] != y[i] {
+			return false
+		}
+	}
+	return true
+}
+
+func u32Equal(a, b []uint32) bool {
+	if len(a) != len(b) {
+		return false
+	}
+	for i := range a {
+		if a[i] != b[i] {
+			return false
+		}
+	}
+	return true
+}
+
+func hexString(b []byte) string {
+	out := make([]byte, 0, 2*len(b))
+	for _, c := range b {
+		out = append(out, hexdigits[c>>4], hexdigits[c&15])
+	}
+	return string(out)
+}
+
+func u32String(u []uint32) string {
+	out := []byte{'['}
+	for i, v := range u {
+		if i > 0 {
+			out = append(out, ' ')
+		}
+		out = strconv.AppendUint(out, uint64(v), 10)
+	}
+	return string(append(out, ']'))
+}
+
 func (w *world) sendPlanned(op *Op) bool {
 	return op.Ch >= 0 && op.Ch < maxChans && op.Idx >= 0 && op.Idx < maxMsgs && w.planned[op.Ch][op.Idx]
 }
@@ -1050,6 +1147,9 @@ func (w *world) runTask(t int, wg *sync.WaitGroup) {
 				w.res[t][i] = opResult{done: true, skipped: true}
 			}
 		default:
+			if op.K == opMutate {
+				w.releaseResults(t, i, op.A)
+			}
 			res, out := w.execOp(t, op, in)
 			if op.B >= 0 && out.def {
 				w.slots[op.B] = out
@@ -1082,7 +1182,10 @@ func runConcurrent(s *RunSpec) *world {
 }
 
 //go:norace
-func setActive(v bool) { sActive = v }
+func setActive(v bool) {
+	sActive = v
+	hook.Active = v
+}
 
 //go:norace
 func getDeadlock() bool { return sDeadlock }
@@ -1165,6 +1268,9 @@ func runReference(s *RunSpec) *world {
 							ir, _ = w.execOp(t, op, in)
 						}
 						w.iso[t][i] = ir
+					}
+					if op.K == opMutate {
+						w.releaseResults(t, i, op.A)
 					}
 					res, out := w.execOp(t, op, in)
 					if op.B >= 0 && out.def {
